@@ -38,7 +38,12 @@ class Sim:
     def __init__(self):
         self.s = {}
         self.ctor = "new"      # "new_default" for histories on the C library allocator
-        self.mix = False       # further slots alternate between the two constructors
+        self.mix = False       # slots other than 0 are built with the *other* constructor
+
+    def ctor_for(self, k):
+        if k == 0 or not self.mix:
+            return self.ctor
+        return "new" if self.ctor == "new_default" else "new_default"
 
     def live(self):
         return sorted(self.s)
@@ -150,7 +155,7 @@ class LinkedGen:
         if len(live) < 2:
             k = sim.free_slot()
             sim.s[k] = []
-            ctor = "new" if sim.mix else sim.ctor
+            ctor = sim.ctor_for(k)
             out.append(f"{ctor} o={k}" if k else ctor)
             for _ in range(rng.choice([0, 1, 2, 3, 5])):
                 v = val(rng)
@@ -311,14 +316,29 @@ class LinkedGen:
     def one_history(self, rng, tier, focus):
         sim = Sim()
         sim.s[0] = []
-        # Some histories run on the C library allocator (`new_default`), and half of those mix it with
-        # lists on the harness allocator (add_all / add_all_at once allocated the copies with the SOURCE
-        # list's allocator: corpus/<k>/add_all_two_triples.ops).  No `fail=` in such histories (the C
-        # library allocator cannot be refused) and no zip iterator across the two kinds.
-        if focus in ("all", "refuse") and rng.random() < 0.06:
-            sim.ctor = "new_default"
-            sim.mix = rng.random() < 0.5
+        # Some histories run on the C library allocator (`new_default`), and some mix the two kinds in both
+        # orders (slot 0 default / other slots configured, and vice versa): add_all / add_all_at between
+        # them (they once allocated the copies with the SOURCE list's allocator, corpus add_all_two_triples)
+        # and zip iterators over such a pair (zip_iter_add allocates one node per list, each from its own
+        # list's triple; corpus zip_two_triples).  splice / splice_at are left out of mixed histories:
+        # they move the nodes themselves, so across allocators they are inherently outside the contract.
+        # No `fail=` in histories that contain a default-constructed list (libc cannot be refused).
+        r0 = rng.random()
+        if focus in ("all", "refuse") and r0 < 0.10:
+            sim.mix = r0 < 0.07
+            sim.ctor = "new_default" if (not sim.mix or rng.random() < 0.5) else "new"
+        elif focus == "iter" and r0 < 0.04:
+            sim.mix = True
+            sim.ctor = rng.choice(["new_default", "new"])
         ops = [sim.ctor]
+        if sim.mix:
+            # both lists exist from the start so that zip programs over the mixed pair are frequent
+            for _ in range(rng.randint(0, 4)):
+                v = val(rng); sim.s[0].append(v); ops.append(f"add {v}")
+            sim.s[1] = []
+            ops.append(f"{sim.ctor_for(1)} o=1")
+            for _ in range(rng.randint(0, 4)):
+                v = val(rng); sim.s[1].append(v); ops.append(f"add {v} o=1")
         length = rng.randint(1, 50)
         allf = focus in ("all", "refuse")
         for _ in range(length):
@@ -332,7 +352,7 @@ class LinkedGen:
             r = rng.random()
             new = []
             if (focus == "iter" or allf) and r < (0.3 if focus == "iter" else 0.12):
-                new = self.zip_program(rng, sim) if (rng.random() < 0.25 and len(live) > 1 and not sim.mix) else self.iter_program(rng, sim, k)
+                new = self.zip_program(rng, sim) if (rng.random() < (0.6 if sim.mix else 0.25) and len(live) > 1) else self.iter_program(rng, sim, k)
             elif (focus == "derived" or allf) and r < (0.35 if focus == "derived" else 0.2):
                 new = self.derived_op(rng, sim, k)
             elif (focus == "sort" or allf) and r < (0.4 if focus == "sort" else 0.28):
@@ -352,7 +372,7 @@ class LinkedGen:
                     new = [f"to_array" + (f" o={k}" if k else "")]
             else:
                 new = [self.core_op(rng, sim, k, reject=(focus == "reject"), grow=(focus == "growth"))]
-            if focus == "refuse" and sim.ctor == "new":
+            if focus == "refuse" and sim.ctor == "new" and not sim.mix:
                 new = [op + (f" fail={rng.choice([1, 1, 2, 3, 4, 6])}" if rng.random() < 0.15 and not op.startswith(("drop", "destroy")) else "")
                        for op in new]
             ops.extend(new)
@@ -428,6 +448,14 @@ class LinkedGen:
                     base = build([5, 6][:na]) + build([7, 8][:nb], 1)
                     for prog in itertools.product(["next", "remove", "add 9 4", "replace 8 3", "index"], repeat=3):
                         out.append(base + ["zit_new o=0 o2=1"] + [f"zit_{p}" for p in prog] + ["add 1", "add 2 o=1", "destroy"])
+        if focus == "iter" or allf:
+            # zip iterator over two lists on different allocators, both orders
+            for c0, c1 in (("new_default", "new"), ("new", "new_default")):
+                for prog in (["zit_next", "zit_add 7 8", "zit_next", "zit_remove", "zit_next", "zit_replace 5 6", "zit_index"],
+                             ["zit_next", "zit_next", "zit_add 7 8", "zit_next", "zit_add 3 4", "zit_next"],
+                             ["zit_next", "zit_remove", "zit_next", "zit_remove", "zit_next", "zit_add 1 2"]):
+                    out.append([c0, "add 1", "add 2", f"{c1} o=1", "add 5 o=1", "add 6 o=1", "add 9 o=1", "zit_new o=0 o2=1"] + prog +
+                               ["add_all from=1", "add_all_at from=0 idx=1 o=1", "remove_last", "remove_first o=1", "destroy"])
         if focus == "derived" or allf:
             for n in range(0, 5):
                 base = build([2, 3, 4, 6][:n])
